@@ -11,6 +11,9 @@ func c20Name(label string) string {
 	}
 	b := vByte(label)
 	vAssume(b >= 'a' && b <= 'c')
+	if b == 'c' {
+		return "c64" // an identifier with digits in it
+	}
 	return string([]byte{b})
 }
 
@@ -35,7 +38,7 @@ func c20WantArgs() []any {
 func HarnessC20Registry() {
 	// a Template loaded (and used once) before any registration: calls through it see later registrations too
 	vfsReset()
-	for _, n := range []string{"a", "b", "c", "len"} {
+	for _, n := range []string{"a", "b", "c64", "len"} {
 		vfsWriteFile("templates/c"+n+".tw", "{{ v."+n+"("+c20Args+") }}")
 	}
 	vfsWriteFile("templates/plain.tw", "plain")
